@@ -453,7 +453,7 @@ where
         // right tail
         let c_last = &self.centroids[self.centroids.len() - 1];
         cum -= 0.5 * c_last.count;
-        let delta = s - 0.5 * c_last.count;
+        let delta = 0.5 * c_last.count;
         let t = (limit - cum) / delta;
         Self::interpolate(c_last.mean(), self.max, t)
     }
